@@ -66,7 +66,7 @@ where
             "".into()
         };
         let name = if !self.name.is_empty() {
-            format!(":name \"{}\"", &self.name)
+            format!(":name {}", Literal::String(self.name.clone()))
         } else {
             "".into()
         };
@@ -148,7 +148,9 @@ where
                     )
                 }
             }
-            GenericAction::Panic(_, msg) => write!(f, "(panic \"{msg}\")"),
+            GenericAction::Panic(_, msg) => {
+                write!(f, "(panic {})", Literal::String(msg.clone()))
+            }
             GenericAction::Expr(_, e) => write!(f, "{e}"),
         }
     }
